@@ -23,6 +23,7 @@ SA == Str(8)
 Sa == Str(9)
 Sb == Str(10)
 ValsAuto == {N0, N3, N6, N12, Nneg, N9, N10, S10, S9, SA, Sa, Sb, Null, L12, LIp7, LIp9, LDate}
+ValsAuto4 == {N0, N6, N12, Nneg, N10, S10, S9, Sa, Null, L12, LIp7, LDate}   \* for tables of four rows (thorough tier)
 ValsSmall == {N0, N6, S9, LIp7, LDate, Null}
 ValsStr == {N9, N10, S10, S9, SA, Sa, Sb, Null, LVer, LIp7}
 OpsAuto == {"auto", "num"}
